@@ -122,7 +122,7 @@ def load_known():
 TRUSTED_BASE = [
     "Coq 8.16.1 kernel (coqc, full .vo build; vm_compute used by computational examples and lemmas; no native_compute)",
     "hand-written Gallina model coq/theories/{Base,Model}/*.v of the Go code (what is modelled, not verified: Go runtime and library behaviour - bufio, strings, strconv.ParseFloat, fmt, text/template, encoding/csv, time, sort, map iteration, goroutines/channels, os files; urfave/cli flag semantics; gcfg; aquilax/truncate)",
-    "correspondence check: extraction (ExtrOcamlBasic only, no Extract Constant of ours), OCaml 4.13.1, harness/ocaml glue (line protocol, hex), Go harnesses under harness/go (build tag verif, add-only), Python orchestrator (generators, projections, comparison)",
+    "correspondence check: extraction (ExtrOcamlBasic, plus one Extract Constant of ours: List.rev => Stdlib.List.rev), OCaml 4.13.1, coq/extraction/main.ml glue (line protocol, hex), Go harnesses under harness/go (build tag verif, add-only), Python orchestrator (generators, projections, comparison)",
 ]
 
 STDLIB_AXIOMS = {"ClassicalDedekindReals.sig_forall_dec", "ClassicalDedekindReals.sig_not_dec", "FunctionalExtensionality.functional_extensionality_dep",
@@ -155,19 +155,21 @@ def proof_evidence(pid, coq_ok, coq_log):
     res["props_files"] = [os.path.relpath(f, VERIF) for f in props_files] + ["(not in _CoqProject, ignored: %s)" % f for f in ignored]
     gate = gate_scan(cone) + ["%s is not listed in _CoqProject (not compiled by the build)" % u for u in unlisted]
     res["axioms"] = assumptions_of(pid)
-    m = re.match(r"(\d+) theorem", res["axioms"][0]) if res["axioms"] else None
-    nclosed = int(m.group(1)) if m else 0
+    nclosed = sum(int(m.group(1)) for a in res["axioms"] for m in [re.match(r"(\d+) theorem", a)] if m)
     if coq_ok and nclosed < len(res["theorems"]):
-        gate = gate + ["only %d of %d property theorems reported 'Closed under the global context'" % (nclosed, len(res["theorems"]))]
+        gate = gate + ["only %d of %d property theorems reported by Print Assumptions" % (nclosed, len(res["theorems"]))]
     # axioms the standard library itself declares may appear (they come in with Flocq's real numbers) and are named in the evidence;
     # anything else is refused
     for a in res["axioms"]:
         if a.startswith("axioms:"):
             other = [x.strip() for x in a[len("axioms:"):].split(",") if x.strip() and x.strip() not in STDLIB_AXIOMS]
             if other: gate = gate + ["a property theorem depends on an axiom that is not one of the standard library's: " + ", ".join(other)]
+    if len(res["axioms"]) > 1:
+        res["trusted_base"] = TRUSTED_BASE + ["axioms declared by Coq's standard library (they enter with the real numbers through Flocq's BinarySingleNaN.binary_round_aux_correct; none is declared by this development): " + "; ".join(res["axioms"][1:])]
     if coq_ok and not gate:
         res["discharged"] = n
-        res["status"] = "all %d statements in the dependency cone of %s (%d files) compiled by coqc; gate clean; every property theorem Closed under the global context" % (n, ", ".join(os.path.basename(f) for f in props_files), len(cone))
+        res["status"] = "all %d statements in the dependency cone of %s (%d files) compiled by coqc; gate clean; %s" % (n, ", ".join(os.path.basename(f) for f in props_files), len(cone),
+            "every property theorem Closed under the global context" if len(res["axioms"]) == 1 else "; ".join(res["axioms"]) + " (axioms declared by the standard library itself, named here and in the trusted base)")
     else:
         res["status"] = "NOT discharged: " + ("; ".join(gate) if gate else "coq build failed: " + coq_log[-1500:])
     return res
@@ -210,17 +212,23 @@ def gate_scan(files):
     return bad
 
 def assumptions_of(pid):
-    """what Print Assumptions printed under the theorems of Props/<pid>.v during the last build"""
+    """what Print Assumptions printed under the theorems of Props/<pid>*.v during the last build:
+    ["<n> theorem(s): Closed under the global context", "axioms: a, b", "<m> theorem(s) depend on them"]"""
     import glob
     logs = [f for f in glob.glob(os.path.join(VERIF, "coq", "assumptions", pid + "*.log")) if re.fullmatch(re.escape(pid) + r"(_\w+)?\.log", os.path.basename(f))]
     if not logs: return ["(no Print Assumptions output recorded)"]
     txt = "\n".join(open(l).read() for l in logs)
     closed = txt.count("Closed under the global context")
-    ax = set()
-    for blk in re.findall(r"^Axioms:\n((?:.*\n)*?)(?=^\S|\Z)", txt + "\n", re.M):
-        ax |= set(re.findall(r"^([A-Za-z_][A-Za-z0-9_.']*)\s*:", blk, re.M))
-    ax = sorted(ax)
-    closed += len(re.findall(r"^Axioms:", txt, re.M))      # a theorem that lists (standard-library) axioms has reported too
-    out = ["%d theorem(s): Closed under the global context" % closed] if closed else []
-    if ax: out.append("axioms: " + ", ".join(ax))
-    return out or ["(none recorded)"]
+    ax, nax, inblk = set(), 0, False
+    for line in txt.split("\n"):
+        if line.startswith("Axioms:"): inblk = True; nax += 1; continue
+        if line.startswith("Closed under the global context"): inblk = False; continue
+        if inblk:
+            m = re.match(r"^([A-Za-z_][A-Za-z0-9_.']*)\s*(:|$)", line)
+            if m: ax.add(m.group(1))
+            elif line and not line[0].isspace(): inblk = False
+    out = ["%d theorem(s): Closed under the global context" % closed]
+    if nax:
+        out.append("axioms: " + ", ".join(sorted(ax)))
+        out.append("%d theorem(s) depend on them" % nax)
+    return out
